@@ -113,6 +113,21 @@ def eval_volume(coords, M, res):
             viols.append(('voxel-size-inconsistent', f'axis {ax}: reported {size[ax]} vs L/n {own}'))
         if not (res * (1 - 1e-9) <= own < 2 * res * (1 + 1e-9)):
             viols.append(('voxel-edge-outside-[res,2res)', f'axis {ax}: L={lengths[ax]} n={shape[ax]} edge={own} res={res}'))
+    if T > 2 and T % 3 == 0:
+        # history: a volume of the first frames, the returned data edited, the trajectory extended in place - the next
+        # volume must count every frame of the longer trajectory
+        try:
+            ta = concretise.make_trajectory(coords[: T // 2], ['Li'] * N, M)
+            tb = concretise.make_trajectory(coords[T // 2:], ['Li'] * N, M)
+            v1 = trajectory_to_volume(ta, resolution=res)
+            v1.data[...] = -7
+            ta.extend(tb)
+            v2 = trajectory_to_volume(ta, resolution=res)
+            fresh = np.asarray(trajectory_to_volume(concretise.make_trajectory(coords, ['Li'] * N, M), resolution=res).data)
+            if not np.array_equal(np.asarray(v2.data), fresh) or int(np.asarray(v2.data).sum()) != T * N:
+                viols.append(('volume-stale-after-extend-or-shares-returned-data', f'sum {int(np.asarray(v2.data).sum())} expected {T * N}'))
+        except Exception as e:  # noqa: BLE001
+            viols.append((f'volume-after-extend-raise-{type(e).__name__}', str(e)))
     E = np.zeros(shape, dtype=int)
     ties = []
     # the coordinates that are binned are the positions the trajectory reports (after a displacement round trip they
